@@ -812,6 +812,68 @@ def j9_outputs(prog, rep):
     return n
 
 
+def j11_strread(prog, rep, units=("util/getopt.c", "util/humansize.c", "util/sock.c", "util/sock_util.c", "aws/aws_readkeys.c", "util/readpass_file.c")):
+    """A NUL-terminated string is read up to its terminator and no further: a counted read (memcmp, memchr, the source of memcpy /
+    memmove) that starts inside a string the function was given as `const char *` -- a parameter, or a local assigned from one --
+    takes its count from strlen() of that string (plus at most the terminator).  A count that comes from somewhere else (the other
+    operand's length) reads past the terminator of a shorter string: the answer is the same as strncmp's, the bytes looked at are
+    not the parser's."""
+    n = 0
+    for up in units:
+        if up not in prog.units:
+            continue
+        u = prog.unit(up)
+        for f in u.funcs:
+            if f.file != up:
+                continue
+            strs = set()
+            for p_ in f.params:
+                t = u.types.get(p_.get("ty")) or {}
+                pt = t.get("pointee", "")
+                if t.get("kind") == "ptr" and pt.replace("const ", "").strip() == "char" and pt.startswith("const"):
+                    strs.add(p_["id"])
+            if not strs:
+                continue
+            # locals that are a position in such a string
+            ch = True
+            while ch:
+                ch = False
+                for e in f.all_elems():
+                    if e.is_assign and e.op == "=" and norm(e.kid(0))[0] == "v" and len(norm(e.kid(0))) > 2:
+                        r = root_var(norm(e.kid(1)))
+                        rt = u.types.get(e.kid(0).ty) or {}
+                        if r is not None and len(r) > 2 and r[2] in strs and rt.get("kind") == "ptr" and norm(e.kid(0))[2] not in strs and norm(e.kid(1))[0] != "call":
+                            strs.add(norm(e.kid(0))[2])
+                            ch = True
+            for c in f.calls(("memcmp", "memchr", "memcpy", "memmove")):
+                ops = {"memcmp": (0, 1), "memchr": (0,), "memcpy": (1,), "memmove": (1,)}[c.callee]
+                for i in ops:
+                    a = c.arg(i)
+                    if a is None:
+                        continue
+                    t = norm(a)
+                    while t[0] == "cast":
+                        t = t[-1]
+                    r = root_var(t)
+                    if r is None or len(r) < 3 or r[2] not in strs or t[0] in ("*", "[]"):
+                        continue
+                    n += 1
+                    ln = f.expand(norm(c.arg(2))) if hasattr(f, "expand") else norm(c.arg(2))
+                    lens = [x for x in subterms(ln) if x[0] == "call" and x[1] == "strlen" and root_var(x[2]) is not None and len(root_var(x[2])) > 2 and root_var(x[2])[2] in strs]
+                    # a local that holds strlen() of the string
+                    for x in subterms(ln):
+                        if x[0] == "v" and len(x) > 2:
+                            ds = [norm(e.kid(1)) for e in f.all_elems() if e.is_assign and e.op == "=" and norm(e.kid(0)) == x]
+                            ds += [norm(f.elem(d["init"])) for e in f.all_elems() if e.cls == "DeclStmt" for d in (e.decls or []) if isinstance(d, dict) and d.get("id") == x[2] and d.get("init")]
+                            if len(ds) == 1 and any(y[0] == "call" and y[1] == "strlen" and root_var(y[2]) is not None and len(root_var(y[2])) > 2 and root_var(y[2])[2] in strs for y in subterms(ds[0])):
+                                lens.append(x)
+                    okc = ln[0] == "c" and isinstance(ln[1], int) and ln[1] <= 1
+                    rep.check(bool(lens) or okc, "J11-strread", "%s in %s: the count comes from the string's own length" % (c.text[:44], f.name), c.where,
+                              "%s bytes are read from the NUL-terminated string `%s`, and the count does not come from strlen() of it: when the string is shorter the read "
+                              "continues past its terminator" % (show(norm(c.arg(2))), r[1]), function=f.name, construct="strread")
+    return n
+
+
 def j10_strstep(prog, rep):
     """The option parser looks at character k >= 1 of a command-line word only where character k - 1 of the same word is known
     not to be NUL (compared equal to a non-NUL character, or unequal to NUL) -- the word may be the empty string, or "-".
@@ -957,6 +1019,9 @@ def run(tier):
         # "a value within the documented range" for over-long digit runs: the accumulation is guarded against wrap-around and the
         # other edge of each guard rejects the string (C16's arithmetic clauses of the same function)
         c16.s3(prog, rep)
+        # ... and for negative numerals given to an unsigned target: the sign is looked for after skipping what the conversion skips
+        c16.s1(prog, rep)
+        j11_strread(prog, rep)
         if j4_wrap(prog, rep) < 1:
             rep.defer_broken("J4-wrap: no index with an unsigned subtraction found")
     # the command-line parser's reads of argv[optind] and its pack cursor (rules shared with C18)
